@@ -1132,6 +1132,10 @@ func (ce *cenv) pseudo(name string, x *ast.CallExpr) (Val, bool) {
 		return intVal(sel(ref, arg(0).L[0])), true
 	case "expected": // expected(counter): the counter's value once every goroutine spawned so far has finished
 		return intVal(ex.expectedGet(ce.st, x.Args[0].(*ast.Ident).Name)), true
+	case "nspawned": // nspawned("F$1"): number of goroutines started so far that run closure F$1
+		key := "X|nspawn." + fnNameArg(x.Args[0])
+		ex.registerKey(key, sInt)
+		return intVal(ex.heapGet(ce.st, key, sInt)), true
 	case "ncalls": // ncalls(fn): number of contract calls of fn made so far by this unit
 		fn := fnNameArg(x.Args[0])
 		key := "X|ncalls." + fn
